@@ -112,6 +112,8 @@ def c06(run):
     run.validate("maccmd", t, "Trace_maccmd", label="(V) 3-5 byte payloads -> decoder", chunk=50000)
     t = run.record("maccmd", "values", n=T(run, 20000, 1000000))
     run.validate("maccmd", t, "Trace_maccmd", label="(V) random values -> encoder", chunk=100000)
+    t = run.record("maccmd", "streams", n=T(run, 1500, 60000))
+    run.validate("maccmd", t, "Trace_maccmd", label="(V) several commands (incl. repeated CIDs) in one FOpts / port-0 payload -> decoder", chunk=50000)
     fcases = gen_frame_cases(run, "val")
     t = run.record("frame", "cases", cases=fcases)
     run.validate("frame", t, "Trace_frame", label="(R) frame headers / join payloads / CFList", chunk=4000)
@@ -195,7 +197,9 @@ def c12(run):
     band_tables(run)
     t = run.record("band", "pingslot", n=T(run, 300, 60000))
     run.validate("band", t, "Trace_band", label="(V) ping-slot frequency for seeded DevAddr / beacon times", chunk=20000)
-    run.require_kinds("band/bandcfg", "band/pingslot")
+    t = run.record("chplan", "history", n=T(run, 56, 7000))
+    run.validate("chplan", t, "Trace_chplan", label="(V) RX1 channel / frequency consistency along channel-plan histories (added, duplicate-frequency, disabled channels)", chunk=T(run, 150, 1500), group_on="reset")
+    run.require_kinds("band/bandcfg", "band/pingslot", "chplan/op")
     run.rc = run.finish(assumptions=BAND_ASSUME, exhaustive=False)
 
 
@@ -313,6 +317,8 @@ def c17(run):
     run.validate("bjson", t, "Trace_bjson", label="(V) hex byte strings and ISO 8601 timestamps", chunk=5000)
     t = run.record("bjson", "structs", n=T(run, 100, 2500))
     run.validate("bjson", t, "Trace_bjson", label="(V) the 20 payload structs with random optional-field combinations", chunk=500)
+    t = run.record("client", "sync", n=T(run, 300, 10000))
+    run.validate("client", t, "Trace_client", label="(V) request payloads through the synchronous backend client to a scripted peer (loopback HTTP)", chunk=2000)
     t = run.record("bjson", "envelope", n=T(run, 300, 10000))
     run.validate("bjson", t, "Trace_bjson", label="(V) key envelopes: 16/24/32-byte KEKs, tampered, wrong KEK (RFC 3394 in TLA+)", chunk=T(run, 20, 100))
     run.require_kinds("bjson/num", "bjson/hex", "bjson/time", "bjson/struct", "bjson/envelope")
